@@ -127,6 +127,7 @@ def cases(rng, tier):
 SPEC = {
     'lean': ['C18'],
     'cases': cases,
+    'big': True,
     'stream': 'C18 print / read-back / exit-status stream',
     'rule': 'integers to 10^300 printed (ㅁㅈ, top level) and read back (ㅈㅅ∘ㅁㅈ = id); finite doubles from random bit '
             'patterns, decimal fractions and known hard cases: ㅅㅅ∘ㅁㅈ = id (checked by ㄴ inside the program) and printed '
